@@ -211,8 +211,8 @@ def run(ctx):
             dict(n=4, maxd=9, len=18, tw=5, num=100)]
     if thorough:
         plans = [dict(n=3, maxd=4, len=5, tw=1, mode="mc"), dict(n=2, maxd=5, len=4, tw=1, mode="mc")]
-        sims = [dict(n=3, maxd=7, len=20, tw=4, num=3000), dict(n=1, maxd=3, len=14, tw=3, num=1000),
-                dict(n=4, maxd=9, len=24, tw=5, num=3000), dict(n=2, maxd=9, len=20, tw=4, num=2000)]
+        sims = [dict(n=3, maxd=7, len=20, tw=4, num=1200), dict(n=1, maxd=3, len=14, tw=3, num=500),
+                dict(n=4, maxd=9, len=24, tw=5, num=1200), dict(n=2, maxd=9, len=20, tw=4, num=800)]
     nontriv = set()
     first_trace = None
     for p in plans:
@@ -225,7 +225,8 @@ def run(ctx):
                 nontriv.add(json.dumps(c["events"], sort_keys=True))
         ctx.sample({"n": p["n"], "events": cases[len(cases) // 2]["events"]})
         tr = replay(ctx, cases, p["n"], "bfs%d" % p["len"], 7 if not thorough else 11, validate=(len(cases) < 60000))
-        first_trace = first_trace or (tr, p["n"])
+        if tr and not first_trace:
+            first_trace = (tr, p["n"])
     for s in sims:
         if ctx.violations:
             ctx.notes.append("violations found in the bounded-exhaustive replay; simulation phases skipped")
@@ -252,7 +253,7 @@ def run(ctx):
     # 3. binding self-test: a corrupted expectation and a corrupted trace must both be rejected
     if ctx.violations:
         return  # the binding has just demonstrated itself on a real deviation
-    tr, n = first_trace
+    tr, n = first_trace or (None, 3)
     bad_case = {"n": 3, "events": [{"ev": "add", "key": "k1", "d": 1}, {"ev": "tick", "fires": [], "now": 0},
                                    {"ev": "tick", "fires": [], "now": 1}]}  # the specification fires k1 at tick 1
     res, summ, _ = ctx.harness("util", HARNESS, RUN, [bad_case], env={"VERIF_TW_LOOP_EVERY": 1})
